@@ -97,6 +97,7 @@ type SweepResult struct {
 	MaxAllocAt    string         `json:"max_alloc_at"`
 	MaxCallMs     float64        `json:"max_call_ms"`
 	Units         int            `json:"units"`
+	Skipped       int            `json:"skipped_after_resource_finding"`
 	Samples       []any          `json:"samples"`
 }
 
@@ -290,6 +291,7 @@ type unitResult struct {
 	MaxAllocAt string         `json:"max_alloc_at"`
 	MaxCallMs  float64        `json:"max_call_ms"`
 	Hang       *callPos       `json:"hang,omitempty"`
+	Skipped    int            `json:"skipped"`
 }
 
 type callPos struct {
@@ -407,6 +409,57 @@ type child struct {
 	out     *bufio.Writer
 	outMu   sync.Mutex
 	cur     atomic.Pointer[callPos]
+	bad     map[string]bool
+	badSeen map[string]int
+	badPath string
+}
+
+// resourceClass names the input class in keys of resource findings (allocation, hang, fatal).
+func resourceClass(in Input, v V) string {
+	if strings.HasPrefix(v.Irr, "claims-more") {
+		return v.Irr
+	}
+	switch in.Kind {
+	case "deep-arrays", "deep-arrays-truncated", "deep-tags", "deep-maps", "deep-indefinite", "nested-arrays-claiming-n", "nested-maps-claiming-n":
+		return in.Kind
+	}
+	return classLabel(in.B, v)
+}
+
+func badKey(in Input, v V, t *Target) string { return resourceClass(in, v) + "|" + t.Family }
+
+// noteBad records that an (input class, target family) pair produced an expensive resource finding
+// (hang, fatal, or an allocation of more than 64 MiB): after two of them the pair is not run again
+// in this sweep (each costs seconds to minutes); the pair is already a violation. The set is shared
+// between the child processes through an append-only file.
+func (c *child) noteBad(in Input, v V, t *Target, expensive bool) {
+	if !expensive || c.badPath == "" {
+		return
+	}
+	k := badKey(in, v, t)
+	c.badSeen[k]++
+	if c.badSeen[k] >= 2 {
+		c.bad[k] = true
+		if f, err := os.OpenFile(c.badPath, os.O_CREATE|os.O_APPEND|os.O_WRONLY, 0o644); err == nil {
+			fmt.Fprintln(f, k)
+			f.Close()
+		}
+	}
+}
+
+func (c *child) loadBad() {
+	if c.badPath == "" {
+		return
+	}
+	data, err := os.ReadFile(c.badPath)
+	if err != nil {
+		return
+	}
+	for _, l := range strings.Split(string(data), "\n") {
+		if l != "" {
+			c.bad[l] = true
+		}
+	}
 }
 
 func (c *child) setStatus(p callPos) {
@@ -422,6 +475,7 @@ func (c *child) setStatus(p callPos) {
 var modes = []string{"stream", "whole"}
 
 func (c *child) runUnit(u int) *unitResult {
+	c.loadBad()
 	ins, perCall := c.plan.inputs(u)
 	res := &unitResult{Unit: u, Inputs: len(ins), ByClass: map[string]int{}, ByKind: map[string]int{}, OkByTarget: map[string]int{}}
 	ag := &agg{m: map[string]*Disagreement{}}
@@ -436,6 +490,10 @@ func (c *child) runUnit(u int) *unitResult {
 		in, t := ins[ii], &c.targets[ti]
 		pos := callPos{u, ii, ti, mi}
 		if c.skip[pos.String()] {
+			return
+		}
+		if metered && c.bad[badKey(in, verd[ii], t)] {
+			res.Skipped++ // this (input class, target family) already produced a resource finding; see noteBad
 			return
 		}
 		var a0 uint64
@@ -467,12 +525,16 @@ func (c *child) runUnit(u int) *unitResult {
 			if da > uint64(allocPerByte*len(in.B)+allocSlack) {
 				ex := example(t, modes[mi], in, verd[ii], o)
 				ex.Observed = fmt.Sprintf("AllocExceeded: %d bytes allocated for %d input bytes (budget %d); result %s", da, len(in.B), allocPerByte*len(in.B)+allocSlack, ex.Observed)
-				ag.add(fmt.Sprintf("alloc-exceeded|kind=%s|family=%s", in.Kind, t.Family), ex)
+				ag.add(fmt.Sprintf("alloc-exceeded|class=%s|family=%s", resourceClass(in, verd[ii]), t.Family), ex)
+				c.noteBad(in, verd[ii], t, da > 64<<20)
 			}
 			if dt > hangLimit {
 				ex := example(t, modes[mi], in, verd[ii], o)
 				ex.Observed = fmt.Sprintf("Hang: call took %s; result %s", dt, ex.Observed)
-				ag.add(fmt.Sprintf("hang|kind=%s|family=%s", in.Kind, t.Family), ex)
+				ag.add(fmt.Sprintf("hang|class=%s|family=%s", resourceClass(in, verd[ii]), t.Family), ex)
+				c.noteBad(in, verd[ii], t, true)
+			} else if dt > 2*time.Second {
+				c.noteBad(in, verd[ii], t, true)
 			}
 		}
 		res.Calls++
@@ -537,7 +599,7 @@ func (c *child) emit(r *unitResult) {
 
 // RunChild executes the units of one shard. Exit code 0: all done; 3: a call exceeded the hang limit
 // (the position is in the last line of the partial file; the parent restarts behind it).
-func RunChild(jobPath string, shard, of, from int, skip []string, partial, statusPath string) int {
+func RunChild(jobPath string, shard, of, from int, skip []string, partial, statusPath, badPath string) int {
 	runtime.GOMAXPROCS(2)
 	debug.SetGCPercent(200)
 	data, err := os.ReadFile(jobPath)
@@ -550,7 +612,7 @@ func RunChild(jobPath string, shard, of, from int, skip []string, partial, statu
 		fmt.Fprintln(os.Stderr, err)
 		return 2
 	}
-	c := &child{plan: newPlan(&job), targets: Targets(), skip: map[string]bool{}}
+	c := &child{plan: newPlan(&job), targets: Targets(), skip: map[string]bool{}, bad: map[string]bool{}, badSeen: map[string]int{}, badPath: badPath}
 	for _, s := range skip {
 		c.skip[s] = true
 	}
@@ -608,7 +670,7 @@ type SweepOpts struct {
 	Dir     string // scratch directory
 }
 
-var frameRe = regexp.MustCompile(`go-fdo/(cbor|cose|protocol|blob|serviceinfo)[./][^\s(]*`)
+var frameRe = regexp.MustCompile(`go-fdo/([a-z]+\.(?:\(\*?[A-Za-z0-9_\[\]\.·,]+\)\.)?[A-Za-z0-9_]+)`)
 
 func codeList(x any) []int {
 	switch x := x.(type) {
@@ -723,6 +785,8 @@ func RunSweep(o SweepOpts) (*SweepResult, error) {
 	targets := Targets()
 
 	ag := &agg{m: map[string]*Disagreement{}}
+	badPath := o.Dir + "/sweep-bad.txt"
+	badSeen := map[string]int{}
 	var mu sync.Mutex
 	var wg sync.WaitGroup
 	for k := 0; k < o.Workers; k++ {
@@ -736,7 +800,7 @@ func RunSweep(o SweepOpts) (*SweepResult, error) {
 			from := 0
 			for attempt := 0; attempt < 400; attempt++ {
 				args := []string{"cbor-decode-sweep", "-child", "-job", jobPath, "-shard", fmt.Sprint(k), "-of", fmt.Sprint(o.Workers),
-					"-from", fmt.Sprint(from), "-partial", partial, "-status", status, "-skip", strings.Join(skip, ",")}
+					"-from", fmt.Sprint(from), "-partial", partial, "-status", status, "-bad", badPath, "-skip", strings.Join(skip, ",")}
 				cmd := exec.Command(o.Self, args...)
 				var stderr bytes.Buffer
 				cmd.Stderr = &stderr
@@ -766,17 +830,27 @@ func RunSweep(o SweepOpts) (*SweepResult, error) {
 				in, t := ins[pos.Input], &targets[pos.Target]
 				v := Verdict(in.B)
 				ex := example(t, modes[pos.Mode], in, v, outcome{})
+				mu.Lock()
+				bk := badKey(in, v, t)
+				badSeen[bk]++
+				if badSeen[bk] >= 2 {
+					if f, err := os.OpenFile(badPath, os.O_CREATE|os.O_APPEND|os.O_WRONLY, 0o644); err == nil {
+						fmt.Fprintln(f, bk)
+						f.Close()
+					}
+				}
+				mu.Unlock()
 				if code == 3 {
 					ex.Observed = fmt.Sprintf("Hang: no return within %s", hangLimit)
-					ag.add(fmt.Sprintf("hang|kind=%s|family=%s", in.Kind, t.Family), ex)
+					ag.add(fmt.Sprintf("hang|class=%s|family=%s", resourceClass(in, v), t.Family), ex)
 				} else {
 					frame := "unknown"
-					if m := frameRe.FindString(stderr.String()); m != "" {
-						frame = strings.TrimPrefix(m, "go-fdo/")
+					if m := frameRe.FindStringSubmatch(stderr.String()); m != nil {
+						frame = m[1]
 					}
 					first := strings.SplitN(strings.TrimSpace(stderr.String()), "\n", 2)[0]
 					ex.Observed = fmt.Sprintf("Crash (process died, exit %d): %s", code, first)
-					ag.add(fmt.Sprintf("fatal|%s|family=%s", frame, t.Family), ex)
+					ag.add(fmt.Sprintf("fatal|%s|class=%s|family=%s", frame, resourceClass(in, v), t.Family), ex)
 				}
 				skip = append(skip, pos.String())
 				from = pos.Unit
@@ -822,6 +896,7 @@ func RunSweep(o SweepOpts) (*SweepResult, error) {
 			if ur.MaxCallMs > res.MaxCallMs {
 				res.MaxCallMs = ur.MaxCallMs
 			}
+			res.Skipped += ur.Skipped
 		}
 		f.Close()
 	}
